@@ -820,6 +820,29 @@ func (s *State) havocAll() {
 // frame
 
 func (x *Exec) frameCheck(s *State, key, addr string, in ssa.Instruction) {
+	// explicit loop frames: a write inside a loop with a modifies clause must hit
+	// a listed location or an object allocated since the loop was entered
+	if in != nil && in.Block() != nil {
+		for idx, lc := range s.loops {
+			li := x.loops[idx]
+			if li == nil || !lc.hasMod || !li.body[in.Block()] {
+				continue
+			}
+			var ds []string
+			ds = append(ds, app(">=", addr, lc.allocAt))
+			for _, a := range lc.modAddrs[key] {
+				if a == "" {
+					ds = []string{"true"}
+					break
+				}
+				ds = append(ds, eq(addr, a))
+			}
+			if c := or(ds...); c != "true" {
+				o := x.ob("frame", fmt.Sprintf("loop%d#%s", li.ordinal, sanitize(key)), "write to "+key+" outside the loop's modifies clause", in)
+				s.check(o, c)
+			}
+		}
+	}
 	if x.freshRef[addr] || x.mods.all {
 		return
 	}
